@@ -129,7 +129,7 @@ func (fr *Frame) appendCall(x *ssa.Call, s, t Val, st *State, rch Term) Val {
 	cp := vc.define("apcp", "Int", ite(inPlace, s.C[2], newCap))
 	// obligations after an append may be split on "in place" vs "reallocated"
 	if len(vc.caseGroups) < 6 {
-		vc.caseGroups = append(vc.caseGroups, caseGroup{conds: []Term{inPlace, not(inPlace)}, nAssert: len(vc.asserts)})
+		vc.caseGroups = append(vc.caseGroups, caseGroup{conds: []Term{inPlace, not(inPlace)}, late: true, nAssert: len(vc.asserts)})
 	}
 	// contents
 	// 1. reallocation copies the old elements (reads from the old state)
